@@ -24,6 +24,18 @@ func defFor(check string) *checkDef {
 			rule: "one simulated run per seed: swarm configuration, generated history of batches (insert/update/delete, empty and delete-only batches, ids re-used) from one client, every background step scheduled from the tape; after every window with a changed root a fresh Reader is read completely and compared document by document with the abstract index. distinct = distinct release sequences (hash of actor:gate per window); non-trivial = at least one background step (persister/merger/introducer release) was interleaved between two client operations",
 			assume: commonAssume,
 			probes: []string{"introducer-recompute-obsoletes", "file-merge", "in-memory-merge", "merge-3plus-inputs", "nap-timer-fired"}}
+	case "C02":
+		return &checkDef{property: "C02", level: "fault_enumeration", timeout: 600 * time.Second,
+			budget: map[string]tierCfg{"quick": {400, 80}, "thorough": {20000, 1800}},
+			rule: "runs are sampled by seed (safe mode with 1-3 clients, unsafe mode with persisted callbacks; persister/merger/clean-up interleavings from the tape); within each run EVERY crash instant is enumerated: the directory image after each mutating directory operation, torn variants of the persist in flight (prefix lengths from a boundary set, zero-filled, stale tail) and subsets of each unordered remove group; each distinct image is recovered by the real open path in a child process and must contain every batch acknowledged in an earlier window and equal an abstract state the index went through. evaluations = simulated runs; crash_images_probed = images recovered. distinct = distinct release sequences; non-trivial = a background step interleaved between client operations",
+			assume: commonAssume,
+			probes: []string{"file-merge", "in-memory-merge"}}
+	case "C03":
+		return &checkDef{property: "C03", level: "fault_enumeration", timeout: 900 * time.Second,
+			budget: map[string]tierCfg{"quick": {250, 90}, "thorough": {10000, 1800}},
+			rule: "as C02 with the whole torn-variant set, plus crash / recover / continue / crash: a seeded subset of the images of each run (biased to torn snapshot files and to instants just after snapshot persists and removals) is continued by a further simulated run with a fresh writer and more workload, whose own trace is enumerated again (depth 2, thorough 3). Oracle per image: the opening process neither dies nor panics, OpenReader/OpenWriter succeed whenever a snapshot had been completed, recovered content = exactly one abstract state (prefix of the applied batches), the recovered writer accepts a batch, reads it back, closes, and the batch survives a reopen",
+			assume: commonAssume,
+			probes: []string{"same-epoch-rewrite-after-recovery", "file-merge", "in-memory-merge"}}
 	case "C04":
 		return &checkDef{property: "C04", level: "exploration",
 			budget: map[string]tierCfg{"quick": {2500, 75}, "thorough": {100000, 1500}},
